@@ -21,7 +21,10 @@ RULE = ("case = well-formed workflow (2-6, thorough 9 targets) with per-target p
         "standing where a declared output file would be: clean carries on with the other outputs), spec-hash records of selected "
         "targets erased and all others kept; a declined prompt leaves the snapshot identical and exits non-zero. "
         "Non-trivial: a selected target has both a protected and an unprotected existing output and an existing "
-        "output belongs to an unselected target. Distinct = SHA-1 of canonical case JSON.")
+        "output belongs to an unselected target. "
+        "Also: protect sets handed over as one-shot iterables; a directory (with a file in it) standing where "
+        "a declared output would be; invocation styles of project.Project. "
+        "Distinct = SHA-1 of canonical case JSON.")
 ASSUMPTIONS = [
     "a directory may stand where a declared output file would be: whether the directory itself goes is not decided by the property, its content is not a declared output and must stay, and the other outputs are still removed",
     "spec-hash records are read from .gwf/spec-hashes.json as a JSON object keyed by target name (the observation point named by the property)",
